@@ -49,6 +49,7 @@ func main() {
 	flag.Var(&cuts, "cut", "name=kind (kind: havoc|uf|noop)")
 	strBytes := flag.Bool("strbytes", false, "constrain fresh strings to bytes")
 	maxStr := flag.Int("maxstr", 0, "max length of fresh strings (0 = unbounded)")
+	bvstr := flag.Bool("bvstr", false, "strings as bounded byte vectors of capacity -maxstr (QF_BV)")
 	smtlog := flag.String("smtlog", "", "write solver transcript to file")
 	deadline := flag.Int("deadline", 0, "wall-clock budget in seconds (0 = none)")
 	workers := flag.Int("workers", 12, "parallel workers (one solver process each)")
@@ -104,7 +105,8 @@ func main() {
 		}
 		cfg := symex.Config{MaxDepth: *maxDepth, MaxLoop: *maxLoop, MaxPaths: *maxPaths, MaxSteps: *maxSteps,
 			Sched: *sched, Preempt: *preempt, Cuts: cutMap, ModulePath: modPath, Verbose: *verbose,
-			StrBytes: *strBytes, MaxStrLen: *maxStr}
+			StrBytes: *strBytes, MaxStrLen: *maxStr, BVStr: *bvstr}
+		symex.BVStrMode = *bvstr
 		if *deadline > 0 {
 			cfg.Deadline = time.Now().Add(time.Duration(*deadline) * time.Second)
 		}
